@@ -23,6 +23,10 @@ type Event struct {
 	After bool      `json:"after"` // after MarkReturned was called
 }
 
+// ErrTimeout is what an expired deadline returns (a net.Error with Timeout() true that
+// wraps os.ErrDeadlineExceeded); it can also be used as a scripted end error.
+var ErrTimeout error = timeoutErr{}
+
 // ErrInjected is the marker error used for injected transport failures.
 var ErrInjected = errors.New("wire: injected transport error")
 
